@@ -1082,8 +1082,20 @@ class Engine:
             if a.k == "s" and b.k == "s":
                 raise OutOfSubset("string ordering")
             va, vb = toV(a), toV(b)
-            ec.may_raise(z3.Not(z3.And(smt.is_num(va), smt.is_num(vb))), "TypeError", line, "ordering on non-numbers")
-            return f(smt.num_real(va), smt.num_real(vb))
+            both_num = z3.And(smt.is_num(va), smt.is_num(vb))
+            objish = z3.Or(is_obj(va), is_obj(vb))
+            if self.must_g(ec, z3.Not(objish)):
+                ec.may_raise(z3.Not(both_num), "TypeError", line, "ordering on non-numbers")
+                return f(smt.num_real(va), smt.num_real(vb))
+            # an operand may be an instance of a (library / user) class: rich comparison may be defined - arbitrary outcome, may raise
+            self.assumptions.add("A-OBJCMP: an ordering comparison with a non-builtin object operand returns an arbitrary bool and may raise")
+            ec.may_raise(z3.And(z3.Not(both_num), z3.Not(objish)), "TypeError", line, "ordering on non-numbers")
+            flag = fresh("cmp_raises", BoolS)
+            c = fresh("exc_cls", IntS)
+            ec.assume(z3.Implies(flag, sub(c, cid("Exception"))))
+            ec.may_raise_exc(z3.And(objish, flag), Exc(c, None, line, "exception from an overloaded comparison"))
+            res = fresh("objcmp", BoolS)
+            return z3.If(both_num, f(smt.num_real(va), smt.num_real(vb)), res)
         if isinstance(op, (ast.In, ast.NotIn)):
             r = self.contains(b, a, ec, line)
             return r if isinstance(op, ast.In) else z3.Not(r)
